@@ -10,7 +10,7 @@ META = {
     'modules': ['zonal'],
     'functions': ['xrspatial.zonal.regions', 'xrspatial.zonal._area_connectivity'],
     'bounds': {'quick': 'rasters 1x4, 4x1, 2x3, 3x2 with every cell a symbolic value in {-1, 0, 2} or NaN (every equality / NaN pattern is a solver-decided path), neighbourhood 4 and 8; '
-                        '3x3 with NaN-free cells for neighbourhood 4 and 8 under the path budget; the 4x6 "three labels meet" layout family with 4 symbolic cells',
+                        '3x3 with NaN-free cells for neighbourhood 4 and 8 under the path budget; the 4x6 "three labels meet" layout family with 4 symbolic cells; int32 rasters 2x2',
                'thorough': '3x3 with NaN exhaustively, 3x4 and 2x5 under budget'},
     'stubs': ['numba.jit = identity'],
     'outside': ['non-integer values whose isclose tolerance is not transitive', 'rasters larger than the bound'],
